@@ -292,6 +292,17 @@ class Path:
         self.conds.append(cond if d else z3.Not(cond))
         return d
 
+    def known_constructor(self, expr):
+        """the datatype constructor index that the branch decisions taken so far fix for `expr` (recognizer
+        literals in the path condition), or None"""
+        for f in self.conds:
+            g, pos = f, True
+            if z3.is_not(g):
+                g, pos = g.arg(0), False
+            if pos and z3.is_app(g) and g.decl().kind() == z3.Z3_OP_DT_IS and g.arg(0).eq(expr):
+                return g.decl()
+        return None
+
     def choose(self, n, label=''):
         """Non-deterministic choice among n alternatives (used for outcome forks)."""
         k = 0
